@@ -6,6 +6,7 @@ import IrVerif.Lemmas.SymExprArith
 import IrVerif.Lemmas.SymExprSound
 import IrVerif.Lemmas.SymExprPrint
 import IrVerif.Lemmas.SymExprText
+import IrVerif.Lemmas.SymExprInt
 namespace IrVerif.SymExpr
 
 /-- **C16_partial**: binding some symbols first and the rest later gives the value of binding
@@ -102,6 +103,23 @@ theorem C16_int_ops (a b : Int) (x : Rat) :
       · have h' : b ≤ a := by have : (b : Rat) < a := not_le.mp h; exact le_of_lt (by exact_mod_cast this)
         simp [h, min_eq_right h']
 
+
+/-- **C16_int_eval**: integer semantics at the level of whole expressions.  For every expression of
+    the integer fragment (dimensions and integers combined with `+ - * // %`, negation, floor, ceil,
+    trunc, abs, sign, max, min — any depth, any mix) and every integer binding, the exact rational
+    evaluator returns precisely what Python integer arithmetic returns (`//` = floor division
+    `Int.fdiv`, `%` = `Int.fmod`, floor / ceil / trunc the identity), and has no value exactly when
+    Python raises `ZeroDivisionError` or a symbol is unbound. -/
+theorem C16_int_eval (env : Env) (e : Expr) (h : intFrag e = true) :
+    eval env e = (evalInt env e).map (fun (z : Int) => (z : Rat)) :=
+  eval_eq_evalInt env e h
+
+/-- the fragment is not empty and contains the sign-sensitive cases: `(-7) // 2 = -4`, `-7 % 2 = 1`,
+    `7 % -2 = -1` -/
+example : evalInt Env.empty (.bin .fdiv (.num (-7)) (.num 2)) = some (-4) := by decide
+example : evalInt Env.empty (.bin .mod (.num (-7)) (.num 2)) = some 1 := by decide
+example : evalInt Env.empty (.bin .mod (.num 7) (.num (-2))) = some (-1) := by decide
+example : intFrag (.bin .mod (.un .trunc (.bin .fdiv (.sym "N") (.num (-2)))) (.sym "M")) = true := by decide
 
 /-- **C16_parser_sound_complete**: the parser decides exactly the documented grammar and gives
     every sentence its standard meaning.  For every derivation tree `d` of
